@@ -73,6 +73,12 @@ theorem bnEval_complete {ρ e v} (h : BN ρ e v) : Returns ρ e v := by
     refine ⟨max k1 k2 + 1, fun k hk => ?_⟩
     obtain ⟨j, rfl, hj⟩ := ge_succ hk
     simp [bnEval, isLit, hn, h1 j (by omega), h2 j (by omega)]
+  | @remInt ρ n spf a1 a2 sp x y hn _ _ hy ih1 ih2 =>
+    obtain ⟨k1, h1⟩ := ih1
+    obtain ⟨k2, h2⟩ := ih2
+    refine ⟨max k1 k2 + 1, fun k hk => ?_⟩
+    obtain ⟨j, rfl, hj⟩ := ge_succ hk
+    simp [bnEval, isLit, hn, h1 j (by omega), h2 j (by omega), hy]
   | @mkList ρ n spf args sp hn =>
     exact ⟨1, fun k hk => by obtain ⟨j, rfl, _⟩ := ge_succ hk; simp [bnEval, isLit, hn]⟩
   | @lenList ρ n spf a sp elems hn _ ih1 =>
